@@ -28,6 +28,8 @@ GUARDS = [
     (r"LeafOk (P\.)?S", "{F}.LeafOk"),
     (r"SchemaOk (P\.)?S", "{F}.SchemaOk"),
     (r"(FromDom\.)?TextStable (P\.)?S", "(FromDom.textStable_of_B _ (domFamily_textStable _ hS))"),
+    (r"buildSchema spec = \.ok S", "@BUILD@"),
+    (r"compileSchema spec dfas = \.ok S", "@COMPILE@"),
 ]
 
 # property → (theorems, uses the DOM sub-family)
@@ -44,6 +46,11 @@ TARGETS = {
             "createAndFillO_iff", "createAndFill0_iff", "createAndFillDom_iff", "createAndFillO_valid", "createAndFill0_valid",
             "createAndFillDom_valid", "fillBeforeNodes_valid", "fillNodesDom_valid"],
     "C16": ["merge_succeeds_marks", "merge_equiv_marks", "merge_succeeds_replace"],
+    "C06": ["buildSchema_content_correct", "buildSchema_live", "buildSchema_completable", "buildSchema_wellFormed",
+            "buildSchema_parses", "buildSchema_tables", "buildSchema_nodeTable", "buildSchema_content_spec"],
+    "C07": ["nodeTable_spec", "inlineContent_iff", "leaf_spec", "top_text_spec", "attrs_defaults_spec"],
+    "C14": ["excluded_lt", "excluded_spec", "excluded_cases", "markSet_spec", "markSet_lt", "markType_fields",
+            "buildSchema_excluded", "buildSchema_markSet"],
     "C19": ["placement_match_coherent", "placement_content_prefix", "placement_finish_valid", "parse_valid",
             "walk_events_admissible", "parse_no_internal", "walk_no_internal"],
 }
@@ -103,7 +110,8 @@ def gen(prop):
            "  schemas the library compiles); what remains are the hypotheses about the document / step / DOM at hand.",
            "  Written by tools/gen_family_corollaries.py from the statements in Props/%s.lean." % prop,
            "-/",
-           "import Props.%s" % prop, "import Props.Family", "import Gen.SchemaFacts"]
+           "import Props.%s" % prop, "import Props.Family",
+           "import Gen.SchemaBuilds" if prop in ("C06", "C07", "C14") else "import Gen.SchemaFacts"]
     out += EXTRA.get(prop, {}).get("imports", [])
     out += ["namespace PM.Family.%s" % prop]
     out += opens + ["open %s" % ns, "open PM.Gen PM.Family", ""]
@@ -126,6 +134,13 @@ def gen(prop):
                 if re.fullmatch(pat, ty):
                     hit = term
                     break
+            if hit in ("@BUILD@", "@COMPILE@"):
+                new_binders.append("(hS : (spec, S) ∈ familySpecs)")
+                args.append("(family_builds (spec, S) hS)" if hit == "@BUILD@" else "(family_compiles (spec, S) hS)")
+                if hit == "@COMPILE@":
+                    new_binders = [x for x in new_binders if not re.fullmatch(r"\{dfas : List Dfa\}", x)]
+                    concl = re.sub(r"\bdfas\b", "(S.nodes.toList.map (·.dfa))", concl)
+                continue
             if hit is not None:
                 if "domFamily_textStable" in hit:
                     used_dom = True
@@ -142,6 +157,9 @@ def gen(prop):
         fam = "domFamilySchemas" if used_dom else "familySchemas"
         F = "(family_facts _ (domFamily_sub _ hS))" if used_dom else "(family_facts _ hS)"
         new_binders = ["(hS : %s ∈ %s)" % (subject, fam) if b == "@HS@" else b for b in new_binders]
+        if any("family_compiles" in a for a in args):
+            # the automata are those of the compiled schema
+            new_binders = [re.sub(r"\bdfas\b", "(S.nodes.toList.map (·.dfa))", b) for b in new_binders]
         args = [a.format(F=F) for a in args]
         out.append("/-- `%s.%s` with its schema guards discharged for the bundled schema family -/" % (ns, name))
         # keep the original line structure of the binders roughly: wrap at ~110 columns
